@@ -43,7 +43,7 @@ RULE = ("a case is one (TLC state, embedding) pair executed on the library; non-
 
 VSCALES = [1.0, 0.5, 1.0 / 3.0, 1e5 / 7.0, 3e-7]
 GEOM = ("cell", "pmin", "pmax")
-NP_DT = {"int": np.int64, "float": np.float64, "complex": np.complex128}
+NP_DT = {"int": np.int64, "float": np.float64, "complex": np.complex128, "bool": np.bool_}
 
 
 def _dy(emb):
@@ -67,6 +67,8 @@ def value_array(f, vs):
     a = fldmod.unflatten(f["vals"], m["n"], dtype=np.int64)
     if f["dt"] == "int":
         return a
+    if f["dt"] == "bool":
+        return a > 0
     if f["dt"] == "float":
         return a.astype(float) * vs
     return a.astype(float) * vs * (1 + 0.5j)
@@ -127,7 +129,8 @@ def exec_state(df, st, emb, vs, part):
     try:
         field = build_field(df, f, emb, vs)
     except Exception as ex:
-        part.violation(f"construct/{kind}/{_dy(emb)}", f"Field construction raised {type(ex).__name__}", wit(exc=repr(ex)))
+        part.note("construct-failed")      # building the field is the property's precondition (C01/C02), not its subject
+        part.sample({"construct-failed": wit(exc=repr(ex))})
         return
     part.nontriv(json.dumps(core.jsonable(f), sort_keys=True), json.dumps(core.jsonable(act), sort_keys=True), emb.name)
     try:
@@ -292,14 +295,17 @@ def gen_trace(df, rnd, tid, embs):
     nv = rnd.choice([1, 1, 2, 3, 3, 4])
     f = {"mesh": m, "dims": list(rnd.choice(DIM_POOL)[:nd]), "units": [rnd.choice(UNIT_POOL) for _ in range(nd)],
          "nv": nv, "vals": [[rnd.randrange(-99, 100) for _ in range(nv)] for _ in range(N)],
-         "labels": rnd.choice(LABEL_POOL[nv]), "dt": rnd.choice(["int", "float", "float", "complex"]),
+         "labels": rnd.choice(LABEL_POOL[nv]), "dt": rnd.choice(["int", "float", "float", "complex", "bool"]),
          "unit": rnd.choice(["", "", "A/m", "T"]), "tol": rnd.choice(["1e-12", "1e-12", "1e-9"])}
     emb = rnd.choice(embs)
     vs = rnd.choice(VSCALES)
     cq = lat.cellq(m)
     hi = [m["lo"][d] + m["c"][d] * n[d] for d in range(nd)]
     coords = list(m["lo"]) + hi
-    field = build_field(df, f, emb, vs)
+    try:
+        field = build_field(df, f, emb, vs)
+    except Exception as exc:
+        raise ConstructFailed(repr(exc))
     xa = field.to_xarray()
     gd = [d for d in xa.dims if d != "vdims"]
     ev = []
@@ -367,9 +373,30 @@ def verdict_key(clause, t, e):
     return f"{clause}/{e['k']}/{'dyadic' if t['dy'] else 'real'}"
 
 
+class ConstructFailed(Exception):
+    """the random driver could not even build its field (precondition of the property, C01/C02's subject)"""
+
+
+def core_safe(ctx, fn, *args):
+    """a library call that raises inside the random driver is a finding about the library, not a harness crash"""
+    import traceback
+
+    try:
+        return fn(*args)
+    except core._tlc.MachineryError:
+        raise
+    except ConstructFailed:
+        ctx.notes["T:construct-failed"] = ctx.notes.get("T:construct-failed", 0) + 1
+        return None
+    except Exception as ex:
+        ctx.violation(f"C17_LibraryRaises/T/{type(ex).__name__}", "the library raised inside the random driver",
+                      {"channel": "T", "exc": repr(ex), "traceback": traceback.format_exc()[-1500:]})
+        return None
+
+
 def run_traces(ctx, df, ntraces, embs):
     rnd = random.Random(ctx.seed * 7919 + 17)
-    traces = [gen_trace(df, rnd, t + 1, embs) for t in range(ntraces)]
+    traces = [tr for tr in (core_safe(ctx, gen_trace, df, rnd, t + 1, embs) for t in range(ntraces)) if tr is not None]
     r, verdicts, _ = ctx.trace_check("C17Trace", "C17Trace.cfg", traces)
     expect = sum(len(t["ev"]) + 1 for t in traces)
     if r.distinct != expect:
@@ -421,6 +448,8 @@ def run(ctx):
             return part
 
         ctx.pmap(chunk, work)
+        if ctx.notes.get("construct-failed", 0) > 0.05 * len(work):
+            raise core._tlc.MachineryError(f"{ctx.notes['construct-failed']} of {len(work)} cases could not even be constructed")
         ctx.notes["model_imports_accepted"] = n_acc
         ctx.notes["model_imports_rejected"] = n_rej
     run_traces(ctx, df, 500 if ctx.tier == "quick" else 6000, embs)
